@@ -48,6 +48,11 @@ def fp(obj):
     return hashlib.sha256(repr(obj).encode()).hexdigest()[:24]
 
 
+# scenarios whose measured call is also made on the argument objects of an earlier call (graph, model graphs, IC dict, initial lists)
+REUSE = ("simple_contagion_tuple_statuses", "simple_contagion_many_statuses", "simple_contagion_directed", "Gillespie_SIR", "Gillespie_SIS",
+         "fast_SIR", "fast_SIS", "Gillespie_SIR+R0", "fast_SIR+R0", "fast_nonMarkov_SIR", "basic_discrete_SIR", "discrete_SIR")
+
+
 def run_one(EoN, sc, full):
     """returns a canonical, hash-order-free projection of the output"""
     import networkx as nx
@@ -64,6 +69,16 @@ def run_one(EoN, sc, full):
     sim = sc["sim"]
     random.seed(sc["seed"])
     np.random.seed(sc["seed"])
+
+    def twice(fn):
+        """the measured call; with sc["reuse"] an earlier call (another seed) has already been made on the very same argument objects"""
+        if sc.get("reuse"):
+            random.seed(sc["seed"] + 1000)
+            np.random.seed(sc["seed"] + 1000)
+            fn()
+            random.seed(sc["seed"])
+            np.random.seed(sc["seed"])
+        return fn()
     if sim.startswith("nonMarkov_fixed_delays"):
         if sim.endswith("SIS"):
             r = EoN.fast_nonMarkov_SIS(G, trans_time_fxn=lambda u, v, rd: [0.5, 1.0, 2.0], rec_time_fxn=lambda u: 1.25,
@@ -151,7 +166,7 @@ def run_one(EoN, sc, full):
         IC[nm[-1]] = "Infected"
         rs = ["Susceptible", "Infected", "Recovered"]
         G = D
-        r = EoN.Gillespie_simple_contagion(D, H, J, IC, rs, tmax=5, return_full_data=full)
+        r = twice(lambda: EoN.Gillespie_simple_contagion(D, H, J, IC, rs, tmax=5, return_full_data=full))
         kind_sts = rs
     elif sim == "simple_contagion_many_statuses":
         H = nx.DiGraph()
@@ -167,7 +182,7 @@ def run_one(EoN, sc, full):
         IC[nm[0]] = "Infectious"
         IC[nm[-1]] = "Exposed"
         rs = ["Susceptible", "Exposed", "Infectious", "Hospital", "Recovered", "Vaccinated"]
-        r = EoN.Gillespie_simple_contagion(G, H, J, IC, rs, tmax=4, return_full_data=full)
+        r = twice(lambda: EoN.Gillespie_simple_contagion(G, H, J, IC, rs, tmax=4, return_full_data=full))
         kind_sts = rs
     elif sim == "simple_contagion_tuple_statuses":
         H = nx.DiGraph()
@@ -179,7 +194,7 @@ def run_one(EoN, sc, full):
         IC[nm[0]] = ("inf", 1)
         IC[nm[-1]] = ("inf", 1)
         rs = [("sus", 0), ("inf", 1), ("rec", 2)]
-        r = EoN.Gillespie_simple_contagion(G, H, J, IC, rs, tmax=4, return_full_data=full)
+        r = twice(lambda: EoN.Gillespie_simple_contagion(G, H, J, IC, rs, tmax=4, return_full_data=full))
         kind_sts = rs
     else:
         ikw = {"initial_infecteds": [nm[0], nm[-1]]}
@@ -192,7 +207,7 @@ def run_one(EoN, sc, full):
         kind = simruns.kind_of(sim)
         call = {"tau": 1.5, "gamma": 1.0, "p": 0.6, "tmin": 0, "tmax": (None if kind == "SIR" else 4),
                 "init_kw": ikw, "weighted": sc["weighted"]}
-        r = simruns.call_sim(EoN, sim, G, call, full)
+        r = twice(lambda: simruns.call_sim(EoN, sim, G, call, full))
         kind_sts = ["S", "I", "R"] if kind == "SIR" else ["S", "I"]
     if not full:
         arrs = [tuple(float(x) for x in a) for a in r]
@@ -242,6 +257,7 @@ def run_all(tier, seed, only=None):
     import os as _os
     import random as _random
     import numpy as _np
+    from harness import simruns
     hidden = []
     orig_urandom = _os.urandom
 
@@ -283,6 +299,9 @@ def run_all(tier, seed, only=None):
                     c = run_one(EoN, sc, full)
                     res[mode + ":after-abort"] = fp(c.get("full", c["arrays"]))
                 res[mode + ":arrays"] = fp(a["arrays"])
+                if sc["sim"] in REUSE or sc["sim"].split("+")[0] in simruns.ALL:
+                    e = run_one(EoN, dict(sc, reuse=True), full)
+                    res[mode + ":same-objects"] = fp(e.get("full", e["arrays"]))
                 if sc["sim"] == "simple_contagion_weight_edited_in_place":
                     d = run_one(EoN, dict(sc, sim=sc["sim"] + ":fresh"), full)
                     res[mode + ":fresh-graph"] = fp(d.get("full", d["arrays"]))
